@@ -59,7 +59,8 @@ theorem inv_ctl_set {w : WM} {iss : List Handle} (hi : Inv ⟨w, iss⟩) (d n : 
     bufEmpty := hemp
     bufKnown := hkn
     markedKnown := fun h hm => ⟨(hi.markedKnown h hm).1, hmk h hm⟩
-    markedRange := hi.markedRange }
+    markedRange := hi.markedRange
+    markedSorted := hi.markedSorted }
 
 /-! ## `createHandles` of padded / emptied buffers -/
 
@@ -160,7 +161,8 @@ theorem lock_refines {c : CW} {s : WS} (hi : Inv c) (hr : Rel c s) : StepRefines
         · simp only [hd, if_false]
           exact hr.buffers
       marked := hr.marked
-      markedLt := hr.markedLt }
+      markedLt := hr.markedLt
+      markedNodup := hr.markedNodup }
 
 /-! ## inner `unlock` (depth ≥ 2): only the counter moves -/
 
@@ -194,7 +196,8 @@ theorem unlock_inner_refines {c : CW} {s : WS} (hi : Inv c) (hr : Rel c s) (hd :
   · exact
     { len := hr.len, ents := hr.ents, deps := hr.deps
       lockDepth := by show s.lockDepth - 1 = w.lockDepth - 1; rw [hr.lockDepth]
-      nthreads := hr.nthreads, buffers := hr.buffers, marked := hr.marked, markedLt := hr.markedLt }
+      nthreads := hr.nthreads, buffers := hr.buffers, marked := hr.marked, markedLt := hr.markedLt,
+      markedNodup := hr.markedNodup }
   · simp [isUnlockOp, cbsAgreeNet]
 
 /-! ## one command pushed on each side -/
